@@ -10,6 +10,13 @@ def run(tier, seed):
     chk = vlib.Check(PID, tier, seed)
     quick = tier == "quick"
     vlib.tlc_check(chk, "H_Mutex abstract object, exhaustive", os.path.join(SPEC, "H_Mutex.tla"), os.path.join(SPEC, "H_MutexMC.cfg"), timeout=600)
+    d = os.path.join(VERIF, "spec", "sync")
+    vlib.tlc_check(chk, "MutexProto: lock / waiter_lock / wait list as coded (try, re-check under waiter_lock, sleep; unlock = release + broadcast), exhaustive incl. liveness",
+                   os.path.join(d, "MutexProto.tla"), os.path.join(d, "MutexProtoMC.cfg"), timeout=600)
+    r = vlib.tlc_check(chk, "MutexProto without the re-check under waiter_lock (must be violated: lost wake-up)", os.path.join(d, "MutexProto.tla"),
+                       os.path.join(d, "MutexProtoNoRecheck.cfg"), timeout=600, expect="violation")
+    if not r["violated"]:
+        raise vlib.Broken("the no-recheck variant of MutexProto is not rejected: the properties are vacuous")
     vlib.history_check(chk, "d_sync", ["mutex"], "H_Mutex", quick, seed, what="mutex history is not a history of a linearizable (recursive) lock")
     chk.assumptions += ["serialized mode explores sequentially consistent interleavings of the hooked atomic operations",
                         "scenario scripts follow a discipline under which a correct implementation terminates; a run that ends in deadlock/stuck/budget is reported as a progress violation"]
